@@ -6,6 +6,7 @@ package histgen
 
 import (
 	"context"
+	"errors"
 	"fmt"
 	"math/rand"
 	"time"
@@ -62,6 +63,8 @@ type Case struct {
 	PolygonRel          bool   // relation parents are type=multipolygon (orientation code path) instead of route
 	LateBase            bool   // Pre regime only: timestamps in 2015 (no commit info although after CommitInfoStart)
 	Reject              []bool // per child: ChildFilter returns false (nil = no filter)
+	FailChild           int    // k > 0: the data source fails with ErrBackend (not a not-found error) when the history of child k-1 is requested
+	TickMS              int    // Commit regime: length of one time unit in milliseconds (0 = 1000); sub-second units give commit instants that differ within one wall-clock second
 }
 
 var (
@@ -80,7 +83,15 @@ func (c *Case) Base() time.Time {
 	return BasePre
 }
 
-func (c *Case) Time(s int) time.Time { return c.Base().Add(time.Duration(s) * time.Second) }
+// Unit is the length of one unit of the At/Eps values.
+func (c *Case) Unit() time.Duration {
+	if c.TickMS > 0 {
+		return time.Duration(c.TickMS) * time.Millisecond
+	}
+	return time.Second
+}
+
+func (c *Case) Time(s int) time.Time { return c.Base().Add(time.Duration(s) * c.Unit()) }
 
 // Eff is the effective time of version k of child ci: its commit instant, or in
 // the pre-commit regime its timestamp, except that a version stamped within
@@ -136,9 +147,34 @@ func (c *Case) stamp(at int, zone ...int) (ts time.Time, committed *time.Time) {
 	return c.Time(at).In(loc), nil
 }
 
+// ErrBackend is the injected data source fault (NotFound reports false for it).
+var ErrBackend = errors.New("histgen: injected backend failure")
+
 // DS is the data source built from the case.
 type DS struct {
 	osm.HistoryDatasource
+	Fail map[osm.FeatureID]bool // histories whose lookup fails with ErrBackend
+}
+
+func (d *DS) NodeHistory(ctx context.Context, id osm.NodeID) (osm.Nodes, error) {
+	if d.Fail[id.FeatureID()] {
+		return nil, ErrBackend
+	}
+	return d.HistoryDatasource.NodeHistory(ctx, id)
+}
+
+func (d *DS) WayHistory(ctx context.Context, id osm.WayID) (osm.Ways, error) {
+	if d.Fail[id.FeatureID()] {
+		return nil, ErrBackend
+	}
+	return d.HistoryDatasource.WayHistory(ctx, id)
+}
+
+func (d *DS) RelationHistory(ctx context.Context, id osm.RelationID) (osm.Relations, error) {
+	if d.Fail[id.FeatureID()] {
+		return nil, ErrBackend
+	}
+	return d.HistoryDatasource.RelationHistory(ctx, id)
 }
 
 // AsChildrenDS additionally implements the ...AsChildren interfaces.
@@ -197,6 +233,9 @@ func (d AsChildrenDS) RelationHistoryAsChildren(ctx context.Context, id osm.Rela
 // BuildDS creates the data source (histories in shuffled order).
 func (c *Case) BuildDS() *DS {
 	d := &DS{}
+	if c.FailChild > 0 && c.FailChild <= len(c.Children) && !c.Children[c.FailChild-1].Missing {
+		d.Fail = map[osm.FeatureID]bool{c.FeatureID(c.FailChild - 1): true}
+	}
 	d.Nodes = map[osm.NodeID]osm.Nodes{}
 	d.Ways = map[osm.WayID]osm.Ways{}
 	d.Relations = map[osm.RelationID]osm.Relations{}
@@ -282,6 +321,7 @@ type Opts struct {
 	ManyUpdates bool // C12: many child versions per parent, same-second clusters
 	Free        bool // Pre regime: no window discipline (several child versions inside one threshold window, parents arbitrarily close); only metamorphic relations are judged on such cases
 	NoErrors    bool // only consistent histories (no deletions, nothing missing)
+	Faults      bool // one case in eight: the data source fails (not a not-found error) for one child
 }
 
 func coord(t *rapid.T, l string) float64 {
@@ -306,10 +346,14 @@ func Gen(t *rapid.T, o Opts) Case {
 	c.Shuffle = int64(rapid.IntRange(0, 1000).Draw(t, "shuffle"))
 	c.PolygonRel = !c.ParentIsWay && rapid.IntRange(0, 2).Draw(t, "polygonRel") == 0
 	c.AsChildren = rapid.IntRange(0, 3).Draw(t, "asChildren") == 0
+	if o.Faults && len(c.Children) > 0 && rapid.IntRange(0, 7).Draw(t, "fault") == 0 {
+		c.FailChild = rapid.IntRange(1, len(c.Children)).Draw(t, "failChild")
+	}
 	return c
 }
 
 func genCommit(t *rapid.T, c *Case, o Opts) {
+	c.TickMS = rapid.SampledFrom([]int{0, 0, 250, 100}).Draw(t, "tickMS")
 	nchild := rapid.IntRange(1, 5).Draw(t, "nchild")
 	if o.ManyUpdates {
 		nchild = rapid.IntRange(3, 8).Draw(t, "nchildMany")
